@@ -368,6 +368,10 @@ def replay(path):
         rp = json.load(f)
     rb, rr = diffrun.run_both(rp["script"], mode=rp.get("mode", "file"))
     ob, orf = diffrun.observe(rb), diffrun.observe(rr)
+    # the same normalisation the check applies (nounset / :? abort statuses are compared as zero / non-zero, @errh markers dropped)
+    pth = next((x for x in PATHS if x[0] == rp.get("path")), None)
+    if pth is not None:
+        ob, orf = norm(ob, pth), norm(orf, pth)
     print(json.dumps({"brush": diffrun.describe(ob), "bash": diffrun.describe(orf),
                       "first_diff": diffrun.first_diff(ob, orf), "brush_stderr": core.txt(rb.err[-800:])}, indent=1))
     if ob != orf or core.crash_kind(rb):
